@@ -677,6 +677,8 @@ static int cif_value_clone_table(struct table_value_s *value, struct table_value
                     }
 
                     FAILURE_HANDLER(hash):
+                    /* the entry was not added; release what it holds (a value that failed to clone holds nothing) */
+                    cif_value_clean(new_value);
                     free(new_entry->key_orig);
                 }
                 free(new_entry->key);
